@@ -140,27 +140,28 @@ example : cscIter 0 M0 3 3 2 ⟨1, 1, 1⟩
     = .ok [([[1, 0, 4], [0, 3, 0]], 0, 2), ([[2, 0, 5]], 2, 3)] := rfl
 
 /-- *"all memory budgets down to the enforced minimum"*: for the budget the
-code derives from **any** `max_gb` (also 0 or negative) and any dtypes — chunk
-sizes never below the enforced minimum of 100 — and with the code's flat
+code derives from **any** `max_gb` (also 0 or negative), any dtypes and any
+constants `K` of the source with minimum sizes `≥ 1` (`C13.source_constants`) — and with the code's flat
 `next_idx` / buffer addressing of the fill pass (`C13.transpose_flat`), the CSC
 iterator yields the rows of the stored matrix. -/
 theorem iter_exact_csc_any_max_gb {α} (zero : α) (M : Mat α) (nRows nCols cs : Nat)
+    (K : BudgetConsts) (hK1 : 1 ≤ K.minLoad) (hK2 : 1 ≤ K.minCount)
     (countGb loadGb elGb : Rat) (dataBytes indptrBytes indicesBytes : Nat) (hcs : 1 ≤ cs)
     (w : WFptr M.indptr nCols M.indices.length) (hlen : M.data.length = M.indices.length)
     (hr : ∀ x ∈ M.indices, x < nRows) :
     (transposeOnDiskFlat zero M nRows none
-        (Budget.of countGb loadGb elGb dataBytes indptrBytes indicesBytes)
+        (Budget.ofConsts K countGb loadGb elGb dataBytes indptrBytes indicesBytes)
       >>= fun csr => csrIter zero csr nRows nCols cs)
       = .ok ((chunks nRows cs).map fun p =>
           (slice (transposeDense zero (toDense zero M nCols nRows) nRows) p.1 p.2, p.1, p.2)) := by
-  have hlo : 1 ≤ (Budget.of countGb loadGb elGb dataBytes indptrBytes indicesBytes).lo := by
-    unfold Budget.of; exact Nat.le_trans (by decide) (Nat.le_max_left _ _)
-  have hc : 1 ≤ (Budget.of countGb loadGb elGb dataBytes indptrBytes indicesBytes).loCount := by
-    unfold Budget.of; exact Nat.le_trans (by decide) (Nat.le_max_left _ _)
+  have hlo : 1 ≤ (Budget.ofConsts K countGb loadGb elGb dataBytes indptrBytes indicesBytes).lo := by
+    unfold Budget.ofConsts; exact Nat.le_trans hK1 (Nat.le_max_left _ _)
+  have hc : 1 ≤ (Budget.ofConsts K countGb loadGb elGb dataBytes indptrBytes indicesBytes).loCount := by
+    unfold Budget.ofConsts; exact Nat.le_trans hK2 (Nat.le_max_left _ _)
   rw [transposeOnDiskFlat_eq zero M nRows none _ hlo hc hlen hr]
   exact cscIter_ok zero M nRows nCols cs _ hcs hlo hc w hlen hr
 
-example : 100 ≤ (Budget.of 0 0 0 8 4 4).lo := Nat.le_max_left _ _
+example : 100 ≤ (Budget.ofConsts ⟨100, 100, 100, 8⟩ 0 0 0 8 4 4).lo := Nat.le_max_left _ _
 
 /-- a column index outside the matrix is an `IndexError` of `_csr_to_dense`,
 never silently dropped: the model keeps the raise site. -/
